@@ -19,12 +19,13 @@ import (
 
 // Config selects the closed system a World runs.
 type Config struct {
-	MaxBranchDepth int    `json:"max_branch_depth"`
-	Base           int    `json:"base,omitempty"`       // 0: start at genesis; n: start on a saved straight chain of height n
-	InitLoad       bool   `json:"init_load,omitempty"`  // start by Load from empty storage instead of InitializeWithGenesis
-	Splits         string `json:"splits,omitempty"`     // "": none reachable; "synth": synthetic split table (see splits.go)
-	Invalid        []string `json:"invalid,omitempty"`  // labels configured as invalid header hashes
-	Prefix         int    `json:"prefix,omitempty"`     // a straight chain G/a/a/... of this height is submitted before the explored history starts
+	MaxBranchDepth  int      `json:"max_branch_depth"`
+	Base            int      `json:"base,omitempty"`             // 0: start at genesis; n: start on a saved straight chain of height n
+	InitLoad        bool     `json:"init_load,omitempty"`        // start by Load from empty storage instead of InitializeWithGenesis
+	Splits          string   `json:"splits,omitempty"`           // "": none reachable; "synth": synthetic split table (see splits.go)
+	Invalid         []string `json:"invalid,omitempty"`          // labels configured as invalid header hashes
+	Prefix          int      `json:"prefix,omitempty"`           // a straight chain G/a/a/... of this height is submitted before the explored history starts
+	ObserveLocators bool     `json:"observe_locators,omitempty"` // request the locators after every operation, the way peers are polled between events (a read must not influence later answers)
 }
 
 // Op is one letter of the alphabet.
@@ -72,7 +73,7 @@ type Step struct {
 	Batches [][]bitcoin.Hash32 // per subscriber: hashes announced during this op
 	PreTip  bitcoin.Hash32
 	PostTip bitcoin.Hash32
-	Known   bool // the submitted header was in the accepted set before the op
+	Known   bool              // the submitted header was in the accepted set before the op
 	Mutated []vstore.Mutation // storage mutations issued by clean/save ops
 }
 
@@ -93,16 +94,16 @@ type World struct {
 	Subs  []*Sub
 	Steps []Step
 
-	Submitted map[string]bool
-	Marked    []bitcoin.Hash32 // model of the invalid list (order of marking)
-	Forgot    bool             // memory was reduced by a small-depth prune or a reload
-	MinDepth  int              // smallest prune depth applied so far (0: never pruned)
-	PruneFloor int             // highest "best height - prune depth" over all prunes so far: what lies below may be gone from memory
-	Pruned    bool
-	heightNow int // best height before the operation being applied
-	Removed   []string         // labels removed from the accepted set by marking (with descendants)
-	MarkedLabels []string      // labels currently marked
-	Anomalies []string         // model-level anomalies (accepted header with unaccepted parent, ...)
+	Submitted    map[string]bool
+	Marked       []bitcoin.Hash32 // model of the invalid list (order of marking)
+	Forgot       bool             // memory was reduced by a small-depth prune or a reload
+	MinDepth     int              // smallest prune depth applied so far (0: never pruned)
+	PruneFloor   int              // highest "best height - prune depth" over all prunes so far: what lies below may be gone from memory
+	Pruned       bool
+	heightNow    int      // best height before the operation being applied
+	Removed      []string // labels removed from the accepted set by marking (with descendants)
+	MarkedLabels []string // labels currently marked
+	Anomalies    []string // model-level anomalies (accepted header with unaccepted parent, ...)
 
 	SavedWork *big.Int // cumulative work of the reported tip at the last completed Save (nil: none)
 }
@@ -435,6 +436,14 @@ func (w *World) Apply(op Op) *Step {
 		st.Batches = append(st.Batches, batch)
 	}
 	st.PostTip = w.tipHash()
+	if w.Cfg.ObserveLocators {
+		Safe(func() error {
+			// the same request every time, the way a poll repeats the previous poll
+			w.Repo.GetVerifyOnlyLocatorHashes(w.Ctx)
+			w.Repo.GetLocatorHashes(w.Ctx, 50)
+			return nil
+		})
+	}
 	w.Steps = append(w.Steps, st)
 	return &w.Steps[len(w.Steps)-1]
 }
